@@ -135,3 +135,20 @@ MANIFEST_TEXT['C01'] = dict(
                'symbolic arcs; OIDs compared against an independent ground-truth tree.',
     level_note='Trusted: CrossHair/z3, PLY LALR construction; the lexer is not part of these conditions; template rendering captured.')
 _finalise()
+
+PROPS['C05'] = dict(
+    modules=['harness.c05_types'], level='other', files=TOK_FILES,
+    explanation=XH + '. C05: SYNTAX clauses with symbolic numbers of range/SIZE alternatives, unbounded symbolic bounds, enumeration/BITS '
+                'items, chains of derived types in symbolic declaration order over two modules and every DEFVAL notation go through the '
+                'real parser, symbol table and JSON code generator; the emitted constraints/defaults are compared with what was written.',
+    functions=TOK_FUNCS + ['pysmi.lexer.smi.SmiV2Lexer.t_NUMBER', 'pysmi.codegen.intermediate.IntermediateCodeGen.getBaseType/genDefVal',
+                           'pysmi.codegen.base.AbstractCodeGen.str2int/isHex/isBinary'],
+    stubs=TOK_STUBS, bounds='<=3 alternatives / items, chains of <=3 derived types over <=2 modules; numeric values unbounded',
+    outside=['constraints()/default() macros of the pysnmp template and pyasn1 objects', 'chains longer than 3', 'hex/bin literals outside the literal pool'],
+    assumptions=['enumeration labels are distinct (SMI rule)'])
+MANIFEST_TEXT['C05'] = dict(
+    technique='CrossHair symbolic execution of parser actions + symtable + JSON codegen on SYNTAX/DEFVAL token sentences',
+    level_text='Solver-exhaustive within bounds: every arrangement of <=3 range/size alternatives with unbounded symbolic bounds, <=3 enum/BITS items, '
+               'every DEFVAL notation through type chains of length 0..3 in every declaration order of the bounded module.',
+    level_note='Trusted: CrossHair/z3, PLY. JSON side only; the pysnmp template macros are outside.')
+_finalise()
